@@ -59,6 +59,10 @@ def framings(n, M, ct):
         # contradictory headers (RFC 7230 3.3.3: chunked wins); only the raw body and the limit are judged
         out.append(('chunked+cl0', 3))
         out.append(('chunked+cl0', max(n, 1)))
+        # every chunk followed by a size line with a minus sign (the decoder reads it as an empty chunk): what counts
+        # for the limit is what was received, not what the size lines add up to
+        out.append(('chunked-neg', 3))
+        out.append(('chunked-neg', max(n, 1)))
     return out
 
 
@@ -102,7 +106,7 @@ def bounds(tier, seed):
             'reads': 'all executions with <=1 short answer (thorough: <=2 for sizes <= 12) + byte-at-a-time'}
 
 
-FLOORS = {'rejected_413': 200, 'accepted': 200, 'spooled_file': 50, 'text_refused': 50, 'mp_file_intact': 4,
+FLOORS = {'via_copy': 500, 'rejected_413': 200, 'accepted': 200, 'spooled_file': 50, 'text_refused': 50, 'mp_file_intact': 4,
           'mp_text_refused': 2, 'short_read_execs': 200}
 
 
@@ -138,6 +142,9 @@ def encode(payload, framing, arg):
         marks.append((len(raw), len(raw) + len(pc), p))
         raw += pc + b'\r\n'
         p += len(pc)
+        if framing == 'chunked-neg':
+            raw += b'-%x\r\n\r\n' % len(pc)
+            longest = max(longest, len(b'-%x\r\n' % len(pc)))
     raw += b'0\r\n\r\n'
 
     def count(pos):
@@ -154,7 +161,7 @@ def encode(payload, framing, arg):
     return bytes(raw), kw, count, longest
 
 
-def serve(om, ex, L, M, ctype_header, accessor, raw, envkw, onebyte=False):
+def serve(om, ex, L, M, ctype_header, accessor, raw, envkw, onebyte=False, via_copy=False):
     cls = OneByteStream if onebyte else ChoiceStream
     stream = cls(ex, raw, _src_prefix())
     app = om.Ombott({'max_body_size': L, 'max_memfile_size': M})
@@ -162,6 +169,8 @@ def serve(om, ex, L, M, ctype_header, accessor, raw, envkw, onebyte=False):
 
     def h():
         rq = app.request
+        if via_copy:
+            rq = rq.copy()          # the body is read for the first time through a copy of the request
         if accessor == 'raw':
             b = rq.body
             seen['kind'] = body_kind(b)
@@ -248,8 +257,10 @@ def work_plain(spec):
                 res['nontrivial'] += 1
             case = {'kind': 'plain', 'L': L, 'M': M, 'ct': ct, 'n': n, 'framing': framing, 'arg': arg}
 
-            def record(obs, choices, onebyte):
+            def record(obs, choices, onebyte, via_copy=False):
                 res['execs'] += 1
+                if via_copy:
+                    c['via_copy'] += 1
                 res['transitions'] += obs['calls']
                 v = judge_plain(obs, L, M, ct, n, payload, count, longest)
                 code = obs.get('code')
@@ -265,7 +276,7 @@ def work_plain(spec):
                     c['short_read_execs'] += 1
                 res['outcomes'].add(f'{ct} {framing} -> {code} {obs["seen"].get("kind")} {"ok" if v is None else v[0]}')
                 if v is not None:
-                    cs = dict(case, choices=choices, onebyte=onebyte)
+                    cs = dict(case, choices=choices, onebyte=onebyte, via_copy=via_copy)
                     core.add_violation(res, cs, f'{case} answers={choices} onebyte={onebyte}: {v[1]}',
                                        sig=f'plain:{ct}:{v[0]}')
             small = n <= 12
@@ -276,6 +287,10 @@ def work_plain(spec):
             ex1 = EnvExplorer(merge=False, horizon=40 * (len(raw) + 10))
             obs = ex1.replay(lambda e: serve(om, e, L, M, CTYPE[ct], accessor, raw, envkw, onebyte=True), [])
             record(obs, [], True)
+            # the handler works on request.copy(): the limits are the application's, whichever Request object reads the body
+            ex2 = EnvExplorer(merge=False, horizon=40 * (len(raw) + 10))
+            obs = ex2.replay(lambda e: serve(om, e, L, M, CTYPE[ct], accessor, raw, envkw, via_copy=True), [])
+            record(obs, [], False, True)
     core.add_sample(res, {'kind': 'plain', 'max_body_size': L, 'max_memfile_size': M, 'content_type': ct,
                           'sizes': sizes(L, M, tier), 'cases': res['states']})
     return res
@@ -404,13 +419,13 @@ def replay(case):
         raw, envkw, count, longest = encode(payload, case['framing'], case['arg'])
         accessor = {'raw': 'raw', 'urlencoded': 'forms', 'json': 'json'}[ct]
         ex = EnvExplorer(merge=False, horizon=40 * (len(raw) + 10))
-        obs = ex.replay(lambda e: serve(om, e, L, M, CTYPE[ct], accessor, raw, envkw, onebyte=case['onebyte']),
+        obs = ex.replay(lambda e: serve(om, e, L, M, CTYPE[ct], accessor, raw, envkw, onebyte=case['onebyte'], via_copy=bool(case.get('via_copy'))),
                         case['choices'])
         v = judge_plain(obs, L, M, ct, n, payload, count, longest)
         if v is None:
             return None
         return (f'max_body_size={L} max_memfile_size={M} {ct} body of {n} bytes, framing {case["framing"]}'
-                f'({case["arg"]}), read answers {case["choices"]}{" byte-at-a-time" if case["onebyte"] else ""}: {v[1]}')
+                f'({case["arg"]}), read answers {case["choices"]}{" byte-at-a-time" if case["onebyte"] else ""}{" (the handler reads through request.copy())" if case.get("via_copy") else ""}: {v[1]}')
     fields = [(a, b, d) for a, b, d in case['fields']]
     parts = [(refmp.cd(nm, fn), d) for nm, fn, d in fields]
     body, _ = refmp.build(b'BND', parts, epilogue=b'\r\n')
